@@ -642,7 +642,8 @@ func c12rpc(c *Ctx, p *load.Program, idT *types.Named) {
 			if v := vals[f]; v != nil {
 				got = facts.Term(v)
 			}
-			if got != wt {
+			// (a decoder that hands the address back by value instead of through a pointer)
+			if got != wt && !(strings.HasPrefix(wt, "*N/publicrpc.decodeEmitterAddress(") && got == strings.TrimPrefix(wt, "*")) {
 				bad = append(bad, fmt.Sprintf("%s = %s (want %s)", f, got, wt))
 			}
 			if strings.HasPrefix(got, "narrow:") {
